@@ -21,14 +21,15 @@ def nodeOps (n : Node) : List Op :=
 theorem nodes_run : ∀ (nodes : List Node) (s e : Nat) (t : Table),
     Tiles s e (nodeSpans nodes) → t.curCol ≤ textStartCol s →
     ∃ t', runOps t (nodes.flatMap nodeOps) = some t' ∧ t'.curRow = t.curRow ∧
-      t'.curCol ≤ textStartCol e ∧ t'.cells = t.cells ++ nodes.map (hdrCell t.curRow) := by
+      t'.curCol ≤ textStartCol e ∧ t'.cells = t.cells ++ nodes.map (hdrCell t.curRow) ∧
+      (∀ j, t'.isShrink j = t.isShrink j) := by
   intro nodes
   induction nodes with
   | nil =>
     intro s e t h hc
     simp only [nodeSpans, List.map_nil, Tiles] at h
     subst h
-    exact ⟨t, rfl, rfl, hc, by simp⟩
+    exact ⟨t, rfl, rfl, hc, by simp, fun _ => rfl⟩
   | cons n rest ih =>
     intro s e t h hc
     simp only [nodeSpans, List.map_cons, Tiles] at h
@@ -42,8 +43,8 @@ theorem nodes_run : ∀ (nodes : List Node) (s e : Nat) (t : Table),
       (textStartCol (n.start + n.len) - textStartCol n.start) n.value [.center, .margin barMargin]
     have ht1c : t1.curCol = textStartCol (s + n.len) := by
       simp only [t1, Table.span]; rw [← hs]; omega
-    obtain ⟨t', h1, h2, h3, h4⟩ := ih (s + n.len) e t1 hrest (by rw [ht1c]; exact Nat.le_refl _)
-    refine ⟨t', ?_, ?_, h3, ?_⟩
+    obtain ⟨t', h1, h2, h3, h4, h5⟩ := ih (s + n.len) e t1 hrest (by rw [ht1c]; exact Nat.le_refl _)
+    refine ⟨t', ?_, ?_, h3, ?_, fun j => by rw [h5]; rfl⟩
     · simp only [List.flatMap_cons, nodeOps]
       rw [show [Op.col (textStartCol n.start), Op.span (textStartCol (n.start + n.len) - textStartCol n.start)
               n.value [.center, .margin barMargin]] ++ List.flatMap nodeOps rest
@@ -70,19 +71,23 @@ def edgeCell (row rEdge : Nat) : Cell :=
 theorem level_run (rEdge ncols : Nat) (hre : textStartCol ncols ≤ rEdge) (nodes : List Node) (t : Table)
     (h : Tiles 0 ncols (nodeSpans nodes)) :
     ∃ t', runOps t (levelOps rEdge nodes) = some t' ∧ t'.curRow = t.row.curRow ∧
-      t'.cells = t.cells ++ nodes.map (hdrCell t.row.curRow) ++ [edgeCell t.row.curRow rEdge] := by
-  obtain ⟨t1, h1, h2, h3, h4⟩ := nodes_run nodes 0 ncols t.row h (by simp [Table.row])
+      t'.cells = t.cells ++ nodes.map (hdrCell t.row.curRow) ++ [edgeCell t.row.curRow rEdge] ∧
+      (∀ j, t'.isShrink j = t.isShrink j) := by
+  obtain ⟨t1, h1, h2, h3, h4, h5⟩ := nodes_run nodes 0 ncols t.row h (by simp [Table.row])
   have hcol : t1.col rEdge = some { t1 with curCol := rEdge } := by
     unfold Table.col
     have : ¬ rEdge < t1.curCol := by omega
     simp [this]
-  refine ⟨({ t1 with curCol := rEdge } : Table).span 1 [] [.margin edgeMargin], ?_, ?_, ?_⟩
+  refine ⟨({ t1 with curCol := rEdge } : Table).span 1 [] [.margin edgeMargin], ?_, ?_, ?_, ?_⟩
   · rw [levelOps_eq, runOps_cons, Table.step, Option.bind_some, runOps_append, h1, Option.bind_some,
       runOps_cons, Table.step, hcol, Option.bind_some, runOps_cons, Table.step, Option.bind_some, runOps_nil]
   · simp only [Table.span]; exact h2
   · simp only [Table.span]
     rw [h4, h2]
     simp [edgeCell, Opt.apply, Table.row]
+  · intro j
+    have : (({ t1 with curCol := rEdge } : Table).span 1 [] [.margin edgeMargin]).isShrink j = t1.isShrink j := rfl
+    rw [this, h5]; rfl
 
 /-! ### all levels -/
 
@@ -100,34 +105,43 @@ def hdrCells (rEdge : Nat) : Nat → Nat → List Node → List Cell
     if nodes.isEmpty then [] else
       nodes.map (hdrCell row) ++ [edgeCell row rEdge] ++ hdrCells rEdge fuel (row + 1) (nodes.flatMap Node.children)
 
+/-- number of header rows the loop writes -/
+def levelCount : Nat → List Node → Nat
+  | 0, _ => 0
+  | fuel + 1, nodes => if nodes.isEmpty then 0 else 1 + levelCount fuel (nodes.flatMap Node.children)
+
 /-- the whole header loop: if every non-empty level tiles the columns, it never panics and adds
-exactly `hdrCells`, one row per level -/
+exactly `hdrCells`, one row per level; `t.row.curRow` is the index of the next row to be started -/
 theorem header_run (rEdge ncols : Nat) (hre : textStartCol ncols ≤ rEdge) : ∀ (fuel : Nat) (nodes : List Node) (t : Table),
     (∀ k, level nodes k ≠ [] → Tiles 0 ncols (nodeSpans (level nodes k))) →
     ∃ t', runOps t (headerOps rEdge fuel nodes) = some t' ∧
-      t'.cells = t.cells ++ hdrCells rEdge fuel t.row.curRow nodes := by
+      t'.cells = t.cells ++ hdrCells rEdge fuel t.row.curRow nodes ∧
+      t'.row.curRow = t.row.curRow + levelCount fuel nodes ∧
+      (∀ j, t'.isShrink j = t.isShrink j) := by
   intro fuel
   induction fuel with
-  | zero => intro nodes t _; exact ⟨t, rfl, by simp [hdrCells]⟩
+  | zero => intro nodes t _; exact ⟨t, rfl, by simp [hdrCells], by simp [levelCount], fun _ => rfl⟩
   | succ fuel ih =>
     intro nodes t htile
-    unfold headerOps hdrCells
+    unfold headerOps hdrCells levelCount
     by_cases hn : nodes.isEmpty = true
-    · simp only [hn, if_true]; exact ⟨t, rfl, by simp⟩
+    · simp only [hn, if_true]; exact ⟨t, rfl, by simp, by simp, fun _ => rfl⟩
     · have hn' : nodes.isEmpty = false := by simpa using hn
       simp only [hn', Bool.false_eq_true, if_false]
       have hnn : nodes ≠ [] := by intro h; rw [h] at hn'; simp at hn'
       have ht0 := htile 0 (by simpa [level] using hnn)
       simp only [level] at ht0
-      obtain ⟨t1, h1, h2, h3⟩ := level_run rEdge ncols hre nodes t ht0
+      obtain ⟨t1, h1, h2, h3, h4⟩ := level_run rEdge ncols hre nodes t ht0
       have hrow : t1.row.curRow = t.row.curRow + 1 := by
         have : t1.cells.isEmpty = false := by rw [h3]; simp
         simp [Table.row, this, h2]
-      obtain ⟨t2, g1, g2⟩ := ih (nodes.flatMap Node.children) t1
+      obtain ⟨t2, g1, g2, g3, g4⟩ := ih (nodes.flatMap Node.children) t1
         (fun k hk => by rw [level_flatMap] at hk ⊢; exact htile (k + 1) hk)
-      refine ⟨t2, ?_, ?_⟩
+      refine ⟨t2, ?_, ?_, ?_, ?_⟩
       · rw [runOps_append, h1]; exact g1
       · rw [g2, h3, hrow]; simp
+      · rw [g3, hrow]; omega
+      · intro j; rw [g4, h4]
 
 /-! ### depth of a good forest -/
 
